@@ -32,6 +32,9 @@ CFGS = {
     "churn2": ("P_churn2", dict(Threads=T3, MaxObj=3), INV),
     "wrap_fixed": ("P_wrap", dict(NF=0, GenMod=2, MaxObj=4), INV),
     "wrapw_fixed": ("P_wrapw", dict(NF=0, GenMod=2, MaxObj=5), INV),
+    "cas": ("P_cas", dict(MaxObj=4, NAddr=4), INV),
+    "cas_nf0": ("P_cas", dict(NF=0, MaxObj=4, NAddr=4), INV),
+    "cas2": ("P_cas2", dict(MaxObj=4, NAddr=4), INV),
     "cache": ("P_cache", dict(MaxObj=4), INV),
     "cache_nf0": ("P_cache", dict(NF=0, MaxObj=4), INV),
     "cache2": ("P_cache2", dict(Threads=T3, MaxObj=3), INV),
